@@ -34,6 +34,7 @@ CURVED = ("Circle", "Ellipse", "Sphere", "Ellipsoid")
 
 def run(index, tier="quick", seed=0) -> Result:
     res = Result("C13", EXPLANATION)
+    pending_ae = []
     declared = {}
     for base in ("Shape2D", "Shape3D"):
         b = index.cls(base)
@@ -181,7 +182,7 @@ def run(index, tier="quick", seed=0) -> Result:
                 elif wrong:
                     res.bad("CEN-1", k + ":radius", where, f"{k}: radius is not {descr} (reductions found: {fns})")
                 else:
-                    raise AnalysisError(f"CEN-1: the radius of {k} is computed in a form the analysis does not recognise (reductions found: {fns})")
+                    pending_ae.append(f"CEN-1: the radius of {k} is computed in a form the analysis does not recognise (reductions found: {fns})")
     # ---------------------------------------------------------------- EX-1 / EX-2
     nex = 0
     for cname, member, dim in (("Polygon", "circumcircle", 2), ("Polygon", "incircle", 2), ("Polyhedron", "circumsphere", 3), ("Polyhedron", "insphere", 3)):
@@ -243,6 +244,14 @@ def run(index, tier="quick", seed=0) -> Result:
                                   "circumcircle", "incircle", "bounding_circle", "incircle_from_center", "circumcircle_radius", "incircle_radius"))
     _copy1(res, index, lambda f: f['top'] in ('circumsphere', 'insphere', 'circumcircle', 'incircle', 'minimal_bounding_sphere', 'minimal_bounding_circle', 'minimal_centered_bounding_circle', 'maximal_centered_bounded_circle', 'minimal_centered_bounding_sphere', 'maximal_centered_bounded_sphere'))
     _undo(res, index)
+    # FRAME-2: the ball members of the planar classes never take fixed world coordinate columns of points / edge vectors
+    from ..frame2 import check as _frame2
+    for cn_ in ("ConvexPolygon", "Polygon"):
+        _frame2(res, index, cn_, ("minimal_centered_bounding_circle", "maximal_centered_bounded_circle", "minimal_bounding_circle", "circumcircle", "incircle",
+                                  "incircle_from_center"))
+    if pending_ae and not res.findings:
+        raise AnalysisError("; ".join(pending_ae[:2]))
+    res.not_in_fragment.extend(pending_ae)
     from ..dimscan import report_translation
     _balls = ("circumsphere", "insphere", "circumcircle", "incircle", "minimal_bounding_sphere", "minimal_bounding_circle", "minimal_centered_bounding_circle", "maximal_centered_bounded_circle", "minimal_centered_bounding_sphere", "maximal_centered_bounded_sphere", "maximal_bounded_circle", "maximal_bounded_sphere")
     report_translation(res, sc, lambda func, path: any(p_.split(".")[-1] in _balls for p_ in path[:1]) or func.split(".")[-1] in _balls,
